@@ -40,6 +40,7 @@ type c11Msg struct {
 	plur    []c11Item // plural: {default} body
 	inLoop  bool
 	inCall  bool
+	inBlock bool // inside a block that shadows $q, which is read again after the block
 }
 
 type c11Tmpl struct {
@@ -119,11 +120,13 @@ func c11Gen(r *RNG) *c11Tmpl {
 		if r.Intn(9) == 0 {
 			m.sing, m.plural, m.plur = nil, false, nil
 		}
-		switch r.Intn(5) {
+		switch r.Intn(6) {
 		case 0:
 			m.inLoop = true
 		case 1:
 			m.inCall = true
+		case 2:
+			m.inBlock = true
 		}
 		t.msgs = append(t.msgs, m)
 	}
@@ -138,6 +141,9 @@ func (t *c11Tmpl) source() string {
 		switch {
 		case m.inLoop:
 			b.WriteString("{foreach $x in $l}[" + m.src() + "]{/foreach}")
+		case m.inBlock:
+			// the message's own scope must be gone when the block ends (whether or not the catalogue has the message)
+			b.WriteString("{let $q: 'out' /}{if $n >= 0}{let $q: 'in' /}<" + m.src() + ">{$q}{/if}{$q}")
 		case m.inCall:
 			name := ".c" + strconv.Itoa(i)
 			b.WriteString("{call " + name + " data=\"all\"/}")
@@ -538,6 +544,8 @@ func (t *c11Tmpl) expected(tr map[uint64][]string, ph map[uint64]map[string]stri
 		switch {
 		case m.inLoop:
 			b.WriteString("[" + one + "][" + one + "]")
+		case m.inBlock:
+			b.WriteString("<" + one + ">inout")
 		case m.inCall:
 			b.WriteString(head + "(" + one + ")")
 		default:
